@@ -446,6 +446,20 @@ func applySetUpdates(dir string, opts GlobalOptions, id string, updates map[stri
 			}
 		}
 
+		// A task may only be filed under an existing, unpruned epic ("" unassigns).
+		if epicID, hasEpic := updates["epic"]; hasEpic && epicID != "" && !isEpic(task) {
+			if _, pruned := graph.Tombstones[epicID]; pruned {
+				return prunedErr(epicID)
+			}
+			parent, ok := graph.Tasks[epicID]
+			if !ok {
+				return fmt.Errorf("unknown epic id %s", epicID)
+			}
+			if !isEpic(parent) {
+				return fmt.Errorf("task %s is not an epic", epicID)
+			}
+		}
+
 		now := time.Now().UTC()
 
 		// Build events using pure function, passing I/O-dependent body resolver
